@@ -25,6 +25,11 @@ of an object is carried as data next to the id:
 
 Not modelled: the 2-D branch (`get_matching` returning `None` for ROI-less objects), the
 `target_uuids` / `ignore_attributes` options of the critical filter (the harness leaves them `None`).
+
+Added later: `PEval/Model/CriticalFrame.lean` COMPUTES the two Booleans `crit` / `estCrit` from the object's
+position, frame id, the frame's transforms and the critical `filtering_params` (C10's `isTarget` at both filter
+call sites of `evaluate_frame`, `target_uuids` / `ignore_attributes` included) and refines into this model
+(`C03.critical_refines`): every theorem stated here for an arbitrary `crit` holds of the computed one.
 -/
 
 namespace PEval.PassFail
